@@ -790,10 +790,12 @@ impl Engine for Process {
         "process"
     }
     fn rule(&self) -> String {
-        "pipeline cases: (minidump bytes, per-module symbol bytes) pairs = minidump-synth dumps for 10 CPU kinds (x86 amd64 arm arm64 arm64-old mips mips64 ppc ppc64 sparc) x 5 OSes (threads with 16..4096-byte stacks seeded with return addresses and frame links, also at the top of the address space; modules; exception with own context and crashing amd64 code; memory-info list or Linux maps with regions up to 2^64-1; /proc limits with short/blank lines, lsb-release, cpuinfo, status, environ; misc info, handles, unloaded modules, crashpad/breakpad/mac streams, thread names), byte-mutated copies of them and of 7 repo dumps, symbol files from a grammar (MODULE/FILE/FUNC+lines/INLINE/PUBLIC/STACK CFI incl. rules that never touch memory/STACK WIN with extreme sizes) plus byte corruption, options 0..3 (stable_basic, stable_all, unstable_all, unstable_all+stat reporter+evil json); each run under catch_unwind and a 5 s + 1 ms/byte budget; frames per thread compared with stack bytes + 2; print, print_brief, print_json(false/true) rendered, JSON re-parsed. the kernel inputs of every processed state (limits text, by_addr regions and the region at each accessed address, module lists and frames) go to the Lean model and its answers are compared with the state / JSON / text report. kernel cases: /proc limits text (limitscase), guard-page region lists incl. ends at 2^64-1 (guardcase), push/call/pop/ret with rsp 0..16 and boundaries (pushcase), STACK WIN FPO records with u32 extremes (fpo) against the model; oracle-only sweep of crashing amd64 instructions (opscan: every opcode of the one-byte and 0F maps x 128 ModRM/SIB forms x prefixes; op: guided and random bytes). non-trivial = the dump was readable and processing returned a ProcessState that was rendered (pipeline) / the kernel produced a non-empty answer (kernel); distinct = distinct case line".into()
+        use std::sync::atomic::Ordering::Relaxed;
+        format!("pipeline cases: (minidump bytes, per-module symbol bytes) pairs = minidump-synth dumps for 10 CPU kinds (x86 amd64 arm arm64 arm64-old mips mips64 ppc ppc64 sparc) x 5 OSes (threads with 16..4096-byte stacks seeded with return addresses and frame links, also at the top of the address space; modules; exception with own context and crashing amd64 code; memory-info list or Linux maps with regions up to 2^64-1; /proc limits with short/blank lines, lsb-release, cpuinfo, status, environ; misc info, handles, unloaded modules, crashpad/breakpad/mac streams, thread names), byte-mutated copies of them and of 7 repo dumps, symbol files from a grammar (MODULE/FILE/FUNC+lines/INLINE/PUBLIC/STACK CFI incl. rules that never touch memory/STACK WIN with extreme sizes) plus byte corruption, `big` pairs (one thread, 4 KiB..16 MiB stack walked by CFI in 1..65536-byte frames, 0..8 MiB of symbol records), `argrec` pairs (x86 frames inside FUNCs with generated names: nested templates/parentheses, unbalanced nesting, up to 1200 arguments, multi-byte characters and white space), options 0..3 (stable_basic, stable_all, unstable_all, unstable_all+stat reporter+evil json); each run under catch_unwind, a 5 s + 1 ms/byte budget and a counting allocator (process_minidump_with_options + 4 renderings: total requested <= {} + {}*D + {}*S + {}*F bytes, peak live <= {} + {}*D + {}*S + {}*F, D dump bytes, S symbol bytes served, F frames); frames per thread compared with stack bytes + 2; print, print_brief, print_json(false/true) rendered, JSON re-parsed. the kernel inputs of every processed state (limits text, by_addr regions and the region at each accessed address, module lists and frames; for x86 states under options 2/3 the frames' stack pointers, names, eax and the stack bytes) go to the Lean model and its answers are compared with the state / JSON / text report (incl. the recovered arguments). kernel cases: /proc limits text (limitscase), guard-page region lists incl. ends at 2^64-1 (guardcase), push/call/pop/ret with rsp 0..16 and boundaries (pushcase), STACK WIN FPO records with u32 extremes (fpo) against the model. crashing-instruction cases: opsweep = one opcode byte of the one-byte / 0F / 0F38 / 0F3A maps under one prefix string (legacy, REX, VEX, EVEX) x ModRM mod x reg x rm{{0,3,4,5}} x 4 SIB forms, decoded by yaxpeax-x86, abstracted, shape judged, instructions with an opcode the analysis distinguishes (and one per operand-shape signature) run through the real pipeline with a register profile and compared with MdModel.OpAnalysis (properties, memory accesses, instruction-pointer update, flip registers); opone = random tails behind 20 prefix/map heads and guided bytes, same comparison; op = guided bytes through the pipeline (oracle only). this run: {} decoded instructions abstracted and judged, {} of them run through the real analysis and compared. non-trivial = the dump was readable and processing returned a ProcessState that was rendered (pipeline) / the kernel produced a non-empty answer (kernel) / at least one instruction ran through the real analysis (opsweep, opone); distinct = distinct case line",
+            MEM_K0, MEM_KD, MEM_KS, MEM_KF, MEM_P0, MEM_PD, MEM_PS, MEM_PF, opana::DECODED.load(Relaxed), opana::REAL_RUNS.load(Relaxed))
     }
     fn exhaustive_part(&self) -> Option<String> {
-        Some("every (CPU kind, OS, option set) combination = 10 x 5 x 4 is generated at least twice per run; pushcase: all rsp in 0..=16 x {push, call, pop, ret}; opscan: all 256 opcodes of the one-byte and 0F maps (no prefix; REX.W: every second opcode in the quick tier, all in thorough) x 128 ModRM forms".into())
+        Some("every (CPU kind, OS, option set) combination = 10 x 5 x 4 is generated at least twice per run; pushcase: all rsp in 0..=16 x {push, call, pop, ret}; opsweep: all 256 opcode bytes of the one-byte, 0F, 0F38 and 0F3A maps under each of 7 legacy/REX prefix strings and of the VEX (C5, C4 map 2, C4 map 3) and EVEX (map 1; map 2 with mask) heads (quick; 32 prefix strings in the thorough tier), each with 4 mod x 8 reg x {rm 0, 3, 5, and rm 4 with 4 SIB bytes}".into())
     }
 
     fn generate(&self, tier: Tier, rng: &mut Rng, emit: &mut dyn FnMut(String)) {
